@@ -6,6 +6,8 @@ from ..smtsys import SmtSys
 
 def plans(tier):
     out = [dict(key_size=1, default=b"", keys=("00", "01", "80", "81", "40"), values=("a", "bb", ""), forms=("m", "i")),
+           dict(key_size=1, default=b"", keys=("00", "01", "81", "c0"), values=("a", "x64", "h32")),
+           dict(key_size=1, default=b"\x07", keys=("00", "01", "81", "40"), values=("a", "bb"), chain=3),
            dict(key_size=1, default=b"\x07", keys=("00", "01", "80", "81"), values=("a", "bb", ""), forms=("m",))]
     sizes = range(2, 33)
     for n in sizes:
